@@ -107,7 +107,7 @@ def c01_shapes(tier):
     R3 = ['r2:10:19', 'r2:20:29', 'r2:30:39']
     for words, items, opt, fl in ((['-f', '-v', S(0), S(1), '\x04', S(2)], ['v=7,#0,#1', 'fv=#2', 'f=1'], 32 | 64, 0), (['-e', S(0), S(1), '\x04', S(2), '-f'], ['c=#0,#1', 'fv=#2', 'f=1'], 32 | 64, 0),
                                   (['-v', S(0), S(1), '-q', '\x04', S(2), '-f'], ['v=7,#0,#1', 'fv=#2', 'f=1'], 32 | 64, 1), (['-e', S(0), '--zz', '\x04', S(1), S(2)], ['c=#0', 'fv=#1,#2'], 32 | 64, 1),
-                                  (['-f', '\x04', '-v', S(0)], ['v=7,#0', 'f=1'], 0, 0)):
+                                  (['-f', '\x04', '-v', S(0)], ['v=7,#0', 'f=1'], 0, 0), (['-v', S(0), 'x', '\x04', S(1), S(2)], ['v=7,#0', 'fv=#1,#2'], 32 | 64, 1)):
         shapes.append(('hx_pa_twice', [6, (opt << 8) | fl], lab('c01/two evaluations', words), {'pa_tmpl': tmpl('ok', items, R3, words)}))
     # value mode 'command': the rest of the command line, joined by blanks, is the value
     for words, slots, items in ((['-x', S(0)], ['s2'], ['k=$0', 'f=0']), (['-f', '-x', S(0), S(1)], ['s2', 's1'], ['k=$0 $1', 'f=1']), (['-x', S(0), '-f', '-n', S(1)], ['s2', 'd2'], ['k=$0 -f -n $1', 'f=0', 'n=_']),
@@ -479,7 +479,9 @@ def c06_shapes(tier):
     for words, items in ((['-v', S(0), S(1), '--endvalues', S(2), '-f'], ['v=7,#0,#1', 'fv=#2', 'f=1']), (['-v', S(0), '--endvalues', S(1), '-e', S(2), S(0), '--endvalues', S(2)], ['v=7,#0', 'c=#2,#0', 'fv=#1,#2']),
                          (['-e', S(0), S(1), '--endvalues', S(2), '-e', S(1), '--endvalues', S(0), '-f'], ['c=#0,#1,#1', 'fv=#2,#0', 'f=1'])):
         shapes.append(('hx_pa', [6, 2 | ((32 | 64) << 8)], lab('c06/endvalues', words), {'pa_tmpl': tmpl('ok', items, SU, words)}))
-    for words, items, opt, fl in ((['-v', S(0), S(1), '\x04', S(2)], ['v=7,#0,#1', 'fv=#2'], 32 | 64, 0), (['-v', S(0), S(1), '-q', '\x04', S(2), '-f'], ['v=7,#0,#1', 'fv=#2', 'f=1'], 32 | 64, 1), (['-e', S(0), '\x04', '-e', S(1) + ',' + S(2)], ['c=#0,#1,#2'], 0, 0)):
+    for words, items, opt, fl in ((['-v', S(0), S(1), '\x04', S(2)], ['v=7,#0,#1', 'fv=#2'], 32 | 64, 0), (['-v', S(0), S(1), '-q', '\x04', S(2), '-f'], ['v=7,#0,#1', 'fv=#2', 'f=1'], 32 | 64, 1), (['-e', S(0), '\x04', '-e', S(1) + ',' + S(2)], ['c=#0,#1,#2'], 0, 0),
+                                  # the first evaluation fails in the middle of the value list (a value that is not a number)
+                                  (['-v', S(0), S(1), 'four', '\x04', S(2), '-f'], ['v=7,#0,#1', 'fv=#2', 'f=1'], 32 | 64, 1), (['-e', S(0) + ',' + S(1), 'x', '\x04', S(2)], ['c=#0,#1', 'fv=#2'], 32 | 64, 1)):
         shapes.append(('hx_pa_twice', [6, (opt << 8) | fl], lab('c06/two evaluations', words), {'pa_tmpl': tmpl('ok', items, ['r2:10:19', 'r2:20:29', 'r2:30:39'], words)}))
     # bitset: positions set, or cleared with unsetFlag(), with and without a value formatter
     for opt, item in ((0, 'bss'), (4096, 'bss'), (2048, 'bsc'), (2048 | 4096, 'bsc')):
